@@ -20,6 +20,10 @@ class RecLog:
     def flush(self):
         self.sink.append(('f', self.name))
 
+    def __len__(self):
+        # a log object is anything with write() and flush(): it may well be an (empty, hence falsy) container
+        return 0
+
 
 class WireFD:
     """context manager: os.write on a chosen fd is recorded instead of executed"""
@@ -182,6 +186,12 @@ def run_ops(pexpect, which, unicode_mode, logs, ops):
                 arg = o[2] if o[1] else o[2].encode('latin-1')
                 c.write(arg)
                 rets.append(None)
+            elif o[0] == 'writelines':
+                # ('writelines', form, [(is_str, text), ...]): any iterable producing strings, also a one-shot one
+                items = [(t if is_str else t.encode('latin-1')) for is_str, t in o[2]]
+                seq = {'list': lambda: items, 'tuple': lambda: tuple(items), 'gen': lambda: (x for x in items), 'iter': lambda: iter(items)}[o[1]]()
+                c.writelines(seq)
+                rets.extend([None] * len(items))
             elif o[0] == 'setlogs':
                 # the application reassigns the log attributes in the middle of the session
                 a, r, s_ = o[1]
@@ -213,6 +223,9 @@ def coq_ops(ops, control_bytes):
             out.append('(Read %s)' % ctext(o[1]))
         elif o[0] in ('send', 'write'):
             out.append('(Send %s %s)' % (cbool(o[1]), ctext(o[2])))
+        elif o[0] == 'writelines':
+            for is_str, t in o[2]:
+                out.append('(Send %s %s)' % (cbool(is_str), ctext(t)))
         elif o[0] == 'sendline':
             out.append('(SendLine %s %s)' % (cbool(o[1]), ctext(o[2])))
         elif o[0] == 'setlogs':
@@ -235,7 +248,12 @@ def encode_events(sink):
     return ev
 
 
-CONTROL = {'c': 3, 'd': 4, 'g': 7, 'z': 26, '[': 27, '\\': 28, ']': 29, '^': 30, '_': 31, '?': 127, '@': 0}
+# every control-character name of the pty transport (ptyprocess.sendcontrol): letters in both cases and the symbol names with their aliases
+CONTROL = {}
+for _i in range(26):
+    CONTROL[chr(97 + _i)] = _i + 1
+    CONTROL[chr(65 + _i)] = _i + 1
+CONTROL.update({'@': 0, '`': 0, '[': 27, '{': 27, '\\': 28, '|': 28, ']': 29, '}': 29, '^': 30, '~': 30, '_': 31, '?': 127})
 
 
 def gen_ops(rng, which, unicode_mode, reads=True, sends=True, setlogs=False):
@@ -255,7 +273,7 @@ def gen_ops(rng, which, unicode_mode, reads=True, sends=True, setlogs=False):
         plan += [('read', p) for p in pieces]
     nsend = rng.randint(0, 4) if sends else 0
     for _ in range(nsend):
-        kind = rng.choice(['send', 'send', 'sendline', 'write', 'control'] if which == 0 else ['send', 'send', 'sendline', 'write'])
+        kind = rng.choice(['send', 'send', 'sendline', 'write', 'writelines', 'control'] if which == 0 else ['send', 'send', 'sendline', 'write', 'writelines'])
         if kind == 'control':
             sub = rng.choice(['control', 'control', 'eof', 'intr'])
             if sub == 'control':
@@ -268,6 +286,14 @@ def gen_ops(rng, which, unicode_mode, reads=True, sends=True, setlogs=False):
             else:
                 plan_item = ('ctl', 'intr', None)
                 control_bytes.append(3)
+        elif kind == 'writelines':
+            items = []
+            for _ in range(rng.randint(0, 3)):
+                if unicode_mode or rng.random() < 0.3:
+                    items.append((True, ''.join(rng.choice(['a', 'é', 'xyz', '€', '']) for _ in range(rng.randint(0, 2)))))
+                else:
+                    items.append((False, ''.join(chr(rng.randrange(256)) for _ in range(rng.randint(0, 4)))))
+            plan_item = ('writelines', rng.choice(['list', 'tuple', 'gen', 'iter']), items)
         else:
             if unicode_mode:
                 t = ''.join(rng.choice(text_pool) for _ in range(rng.randint(0, 3)))
